@@ -56,6 +56,8 @@ type denv struct {
 	nFailDeletes           int             // deprovisioning: deleting this many NodeClaims fails (persistently)
 	failedDeletes          map[string]bool // the claims whose delete failed
 	inReconcile            bool
+	noPods                 bool
+	hook                   func() // run once from inside the next NodeClaim Create
 
 	cluster *state.Cluster
 	prov    *provisioning.Provisioner
@@ -92,6 +94,13 @@ func newDenv(c *kit.Ctx, r *kit.Rand) *denv {
 	e.cl = kit.NewClient(interceptor.Funcs{
 		Create: func(ctx context.Context, w client.WithWatch, obj client.Object, opts ...client.CreateOption) error {
 			if _, ok := obj.(*v1.NodeClaim); ok {
+				e.mu.Lock()
+				hook := e.hook
+				e.hook = nil
+				e.mu.Unlock()
+				if hook != nil { // a second actor runs while this Create is in flight
+					hook()
+				}
 				e.mu.Lock()
 				fail := e.failCreates || e.nFailCreates > 0
 				if e.nFailCreates > 0 {
@@ -296,7 +305,7 @@ func (e *denv) launchAll() {
 		if err := e.cluster.UpdateNode(e.ctx, node); err != nil {
 			panic(err)
 		}
-		if e.r.Chance(1, 3) { // a workload pod on the node, sometimes one that must not be disrupted
+		if !e.noPods && e.r.Chance(1, 3) { // a workload pod on the node, sometimes one that must not be disrupted
 			po := test.Pod(test.PodOptions{ObjectMeta: metav1.ObjectMeta{Name: "pod-" + nc.Name}, NodeName: nc.Name, Phase: corev1.PodRunning})
 			if e.r.Chance(1, 2) {
 				po.Annotations = map[string]string{v1.DoNotDisruptAnnotationKey: "true"}
@@ -449,6 +458,74 @@ func (e *denv) opDeprov(replicas int64, nfail int) {
 	}
 }
 
+// two actors at the node-limit boundary: a provisioning reconcile that wants exactly one more NodeClaim, and - while its
+// kubeClient.Create is in flight, i.e. after ReserveNodeCount and before the claim counts as active - a complete
+// disruption pass (StaticDrift.ComputeCommands + Queue.StartCommand + the replacement's CreateNodeClaims)
+func (e *denv) opInterleave() bool {
+	e.launchAll()
+	a, _, p := e.cluster.NodePoolState.GetNodeCount("spool")
+	if a == 0 || p != 0 || !e.cluster.HasSynced() {
+		return false
+	}
+	if e.limit != int64(a)+1 && e.r.Bool() { // put the pool at the boundary: one slot left
+		e.opLimit(int64(a) + 1)
+	}
+	for _, nc := range e.claims() {
+		if nc.DeletionTimestamp.IsZero() && !nc.StatusConditions().Get(v1.ConditionTypeDrifted).IsTrue() {
+			nc.StatusConditions().SetTrue(v1.ConditionTypeDrifted)
+			if err := e.cl.Status().Update(e.ctx, nc); err != nil {
+				panic(err)
+			}
+			fresh := &v1.NodeClaim{}
+			_ = e.cl.Get(e.ctx, client.ObjectKeyFromObject(nc), fresh)
+			e.opInfUpd(fresh)
+		}
+	}
+	replicas := int64(a) + 1
+	e.setSpec(replicas, e.limit)
+	ran, budget, ncands := false, 0, 0
+	e.mu.Lock()
+	e.started = nil
+	e.hook = func() {
+		ran = true
+		rec := events.NewRecorder(&record.FakeRecorder{})
+		budgets, err := disruption.BuildDisruptionBudgetMapping(e.ctx, e.cluster, e.clk, e.cl, e.cp, rec, v1.DisruptionReasonDrifted)
+		if err != nil {
+			panic(err)
+		}
+		cands, err := disruption.GetCandidates(e.ctx, e.cluster, e.cl, rec, e.clk, e.cp, e.drift.ShouldDisrupt, e.drift.Class(), e.queue)
+		if err != nil {
+			panic(err)
+		}
+		budget, ncands = budgets["spool"], len(cands)
+		_, _ = e.disrC.Reconcile(e.ctx)
+	}
+	e.mu.Unlock()
+	_, _ = e.provC.Reconcile(e.ctx, e.pool())
+	e.mu.Lock()
+	e.hook = nil
+	names := lo.Uniq(e.started)
+	e.mu.Unlock()
+	e.adopt()
+	sort.Strings(names)
+	started := lo.Map(names, func(n string, _ int) string { return gname(e.model[n]) })
+	e.step(fmt.Sprintf("(DInterleave %s %s %d%%nat %d%%nat %s)", kit.GZ(replicas), kit.GBool(ran), budget, ncands, kit.GList(started)),
+		fmt.Sprintf("ProvisioningReconcile(replicas=%d) with DisruptionReconcile(budget=%d, drifted candidates=%d) inside its NodeClaim Create: ran=%v started=%d",
+			replicas, budget, ncands, ran, len(started)))
+	switch {
+	case !ran:
+		e.c.Count("D:interleave:no-slot-granted")
+	case int64(a)+1 == e.limit:
+		e.c.Count("D:interleave:at-the-node-limit-boundary")
+	default:
+		e.c.Count("D:interleave:below-the-boundary")
+	}
+	if len(started) > 0 {
+		e.c.Count("D:interleave:second-actor-started-a-command")
+	}
+	return true
+}
+
 // reconciles that must not act: the NodePool passed in is not ready / being deleted / not managed / not static
 func (e *denv) opSkip(kind int) {
 	np := e.pool()
@@ -588,7 +665,7 @@ func runD(c *kit.Ctx, r *kit.Rand, scripted int) {
 	if r.Chance(1, 8) {
 		limit0 = math.MaxInt64
 	}
-	if scripted == 1 {
+	if scripted == 1 || scripted == 3 {
 		limit0 = 3
 	}
 	if scripted == 2 {
@@ -613,6 +690,14 @@ func runD(c *kit.Ctx, r *kit.Rand, scripted int) {
 		e.opProv(2, 0)
 		e.opDisrupt(1)
 		e.opProv(3, 0)
+	} else if scripted == 3 {
+		e.noPods = true
+		// the boundary: limits.nodes=3, two active drifted nodes; the provisioning controller takes the last slot and the
+		// disruption controller runs while that NodeClaim is being created
+		e.opProv(2, 0)
+		if !e.opInterleave() {
+			panic("harness: scripted interleaving history did not apply")
+		}
 	} else if scripted == 2 {
 		// headroom, drifted launched nodes and one NodeClaim that has not launched: the disruption controller must wait
 		e.opProv(2, 0)
@@ -625,7 +710,7 @@ func runD(c *kit.Ctx, r *kit.Rand, scripted int) {
 		n := r.Range(3, 8)
 		for i := 0; i < n; i++ {
 			cl := e.claims()
-			switch k := r.Intn(13); {
+			switch k := r.Intn(14); {
 			case k <= 2:
 				nfail := 0
 				if r.Chance(1, 4) {
@@ -644,6 +729,10 @@ func runD(c *kit.Ctx, r *kit.Rand, scripted int) {
 				e.opDeprov(int64(r.Range(0, 4)), nfail)
 			case k == 11 && r.Chance(1, 2):
 				e.opSkip(r.Intn(3))
+			case k == 11 || k == 13:
+				if !e.opInterleave() {
+					e.opProv(int64(r.Range(0, 5)), 0)
+				}
 			case k == 8 && len(e.leaving()) > 0:
 				e.opFinalize(kit.Pick(r, e.leaving()))
 			case k == 9 && e.limit != math.MaxInt64:
@@ -707,6 +796,7 @@ func partD(c *kit.Ctx) int {
 	dLast = time.Now()
 	runD(c, c.Rand.Fork(), 1)
 	runD(c, c.Rand.Fork(), 2)
+	runD(c, c.Rand.Fork(), 3)
 	for i := 0; i < n; i++ {
 		runD(c, c.Rand.Fork(), 0)
 	}
